@@ -346,6 +346,93 @@ def gen_and_run(prop, harness_bin, flavor, gen, seed, tier, header, tag):
     return res
 
 
+def conc_run(prop, harness_bin, flavor, gen, seed, tier, tag):
+    """concurrency suites: the harness executes programs under its deterministic scheduler and writes
+    the monitor protocol (ops.txt), the expected answers (impl.txt: every event must be accepted by
+    the model), oracle failures and the distribution itself; the model monitor replays the events"""
+    what = gen.split(":", 1)[1]
+    workdir = os.path.join(BUILD, "run", f"{prop}-{tag}")
+    os.makedirs(workdir, exist_ok=True)
+    rc, out = sh([harness_bin, "conc", what, "--seed", str(seed), "--tier", tier, "--out", workdir], timeout=6000)
+    fatal = os.path.join(workdir, "fatal.json")
+    if rc == 4 and os.path.exists(fatal):
+        # the instrumentation saw a double free / use after free coming and stopped the process before it happened
+        fj = json.load(open(fatal))
+        path = write_replay(prop, f"oracle-{tag}-fatal", [],
+                            ["implementation-side oracle failure (flavor %s): %s" % (flavor, fj["what"]),
+                             "execution: " + fj["execution"], "schedule (thread granted at each step): " + fj["schedule"],
+                             "last events:"] + fj["trace_tail"])
+        return {"gen": gen, "flavor": flavor, "lines": 0, "cases": 1, "dist": {"aborted_on_heap_violation": 1}, "disagreements": [],
+                "oracle": [{"case": 0, "prop": fj["prop"], "what": fj["what"], "line": 0, "n": 1, "replay": path}],
+                "error": None, "nontrivial": 1, "distinct_nontrivial": 1, "samples": [], "disagreeing_lines": 0, "disagreeing_cases": 0,
+                "_lines": [], "_cases": [], "_session": [], "_harness": harness_bin, "_workdir": workdir}
+    if rc != 0:
+        return {"error": f"conc {what} failed rc={rc}: {out[-600:]}"}
+    ops = os.path.join(workdir, "ops.txt")
+    with open(ops) as fin:
+        p = subprocess.run([DRIVER], stdin=fin, stdout=subprocess.PIPE, stderr=subprocess.PIPE, timeout=3000, text=True)
+    if p.returncode != 0:
+        return {"error": f"driver failed rc={p.returncode}: {p.stderr[-500:]}"}
+    rd = lambda f: [l for l in open(os.path.join(workdir, f)).read().split("\n")]
+    lines, impl, model = rd("ops.txt"), rd("impl.txt"), p.stdout.split("\n")
+    for l in (lines, impl, model):
+        if l and l[-1] == "":
+            l.pop()
+    dist = json.load(open(os.path.join(workdir, "dist.json")))
+    cases, session = split_cases(lines)
+    res = {"gen": gen, "flavor": flavor, "lines": len(lines), "cases": len(cases), "dist": dist["dist"],
+           "disagreements": [], "oracle": [], "error": None}
+    nontriv = set(dist["nontrivial_cases"])
+    seen, samples = set(), []
+    for (a, b) in cases:
+        num = int(lines[a].split()[1])
+        if num in nontriv:
+            h = hashlib.sha1("\n".join(lines[a + 2:b]).encode()).hexdigest()
+            if h not in seen:
+                seen.add(h)
+                if len(samples) < 2 and b - a <= 60:
+                    samples.append({"ops": lines[a:b]})
+    res["nontrivial"], res["distinct_nontrivial"], res["samples"] = len(nontriv), len(seen), samples
+    diffs = first_diffs(impl, model, limit=2000)
+    res["disagreeing_lines"] = len(diffs)
+    seen_cases = []
+    for i in diffs:
+        c = case_of(cases, i)
+        if c and c not in seen_cases:
+            seen_cases.append(c)
+
+    def describe(c):
+        try:
+            return bytes.fromhex(lines[c[0] + 1].split()[1]).decode()
+        except Exception:
+            return ""
+    for c in seen_cases[:3]:
+        extra = ["the model of the slot / counter protocol does not accept this execution of the implementation (flavor %s)" % flavor,
+                 "execution: " + describe(c)]
+        for j in [i for i in diffs if c[0] <= i < c[1]][:5]:
+            extra.append(f"line {j - c[0]}: `{lines[j]}` model=`{model[j] if j < len(model) else ''}`")
+        path = write_replay(prop, f"disagree-{tag}-{lines[c[0]].replace(' ', '')}", lines[c[0]:c[1]], extra)
+        res["disagreements"].append({"case": lines[c[0]], "replay": path, "detail": extra})
+    res["disagreeing_cases"] = len(seen_cases)
+    by_case = {}
+    for l in open(os.path.join(workdir, "oracle.txt")).read().split("\n"):
+        if l:
+            cnum, ln, pr, w = l.split("\t", 3)
+            by_case.setdefault((int(cnum), pr), []).append((int(ln), w))
+    written = {}
+    for (cnum, pr), items in by_case.items():
+        c = case_of(cases, items[0][0] - 1) or case_of(cases, items[0][0])
+        path = None
+        if c and written.get(pr, 0) < 2:
+            written[pr] = written.get(pr, 0) + 1
+            path = write_replay(pr if pr != prop else prop, f"oracle-{tag}-case{cnum}", lines[c[0]:c[1]],
+                                ["implementation-side oracle failure (flavor %s)" % flavor, "execution: " + describe(c)]
+                                + [f"{pr}: {w}" for (_, w) in items[:5]])
+        res["oracle"].append({"case": cnum, "prop": pr, "what": items[0][1], "line": items[0][0], "n": len(items), "replay": path})
+    res["_lines"], res["_cases"], res["_session"], res["_harness"], res["_workdir"] = lines, cases, session, harness_bin, workdir
+    return res
+
+
 def leakcheck(prop, res, tag):
     """allocation-level oracle: after a warm-up, re-running the whole session must not change the
     number of live heap bytes.  Returns None when clean, else a dict with a (bisected) replay."""
